@@ -23,6 +23,8 @@ RULE = (
 )
 ASSUMPTIONS = [
     "published slit-pore HK equation with Kirkwood-Mueller dispersion constants (written independently in this file)",
+    "published Rege-Yang slit potentials (one layer: two walls; more layers: (2 eps_hgg + (M-2) eps_ggg)/M with eps_ggg = 2 x guest-guest term), compared with the closure handed to the solver at relative 2e-5 "
+    "(pyGAPS rounds (2/5)^(1/6) to 7 digits)",
     "a solved width is accepted if the pressure lies inside the band exp(phi(L -+ 5e-5 nm)) (solver xatol 1e-5) or the width "
     "sits at a bound of the search interval",
 ]
@@ -129,6 +131,48 @@ def hk_slit_lnp(L, ads, mat, T):
     A_m = 6 * M_E * C_L**2 * pa * pm / (pa / xa + pm / xm)
     pref = (N_A / (R_GAS * T)) * (ads["surface_density"] * A_a + mat["surface_density"] * A_m) / ((sigma * 1e-9)**4 * (L - 2 * d0))
     return pref * (sigma**4 / (3 * (L - d0)**3) - sigma**10 / (9 * (L - d0)**9) - sigma**4 / (3 * d0**3) + sigma**10 / (9 * d0**9))
+
+
+def ry_slit_lnp(L, ads, mat, T):
+    """Rege-Yang (AIChE J. 46 (2000) 734) slit equations, eqs. for eps_1 (M < 2) and (2 eps_2 + (M - 2) eps_3) / M otherwise.
+
+    L is the internuclear wall distance in nm; returns ln(p/p0) = N_A eps / (R T)."""
+    dg, dh = ads["molecular_diameter"], mat["molecular_diameter"]
+    d0 = (dg + dh) / 2
+    c = (2.0 / 5.0)**(1.0 / 6.0)
+    sig, sig_g = c * d0, c * dg
+    pa, pm = ads["polarizability"] * 1e-27, mat["polarizability"] * 1e-27
+    xa, xm = ads["magnetic_susceptibility"] * 1e-27, mat["magnetic_susceptibility"] * 1e-27
+    A_gg = 1.5 * M_E * C_L**2 * pa * xa
+    A_gh = 6 * M_E * C_L**2 * pa * pm / (pa / xa + pm / xm)
+    wall = mat["surface_density"] * A_gh / (2 * (sig * 1e-9)**4)
+    guest = ads["surface_density"] * A_gg / (2 * (sig_g * 1e-9)**4)
+    lj = lambda s, d: (s / d)**10 - (s / d)**4
+    M = (L - dh) / dg
+    if M < 2:
+        eps = wall * (lj(sig, d0) + lj(sig, L - d0))
+    else:
+        eps_hgg = wall * lj(sig, d0) + guest * lj(sig_g, dg)
+        eps_ggg = 2 * guest * lj(sig_g, dg)
+        eps = (2 * eps_hgg + (M - 2) * eps_ggg) / M
+    return N_A / (R_GAS * T) * eps
+
+
+def _check_ry_slit_potential(ctx, ads, mat, T, r):
+    """The potential closure handed to the solver against the published equations, on both sides of M = 2."""
+    fun = _CAPTURE[-1]["fun"]
+    dg, dh = ads["molecular_diameter"], mat["molecular_diameter"]
+    lo = dg + dh + 1e-3
+    edge = dh + 2 * dg
+    Ls = [r.uniform(lo, edge - 1e-6) for _ in range(6)] + [r.uniform(edge + 1e-6, edge + 3.0) for _ in range(8)] + [edge + 1e-4, edge - 1e-4]
+    for L in Ls:
+        got, exp = float(fun(L)), ry_slit_lnp(L, ads, mat, T)
+        ctx.count("ry_slit_potential", "single-layer" if (L - dh) / dg < 2 else "multi-layer")
+        ctx.case(["ry-slit-potential", (L - dh) / dg < 2, round(L, 1)])
+        if not close(got, exp, 2e-5, 1e-12):
+            ctx.violation("RY/slit/potential-vs-published-equation", "the potential handed to the solver is not the published Rege-Yang slit potential", L=L, layers=(L - dh) / dg, got=got, expected=exp,
+                          ads=ads, mat=mat, T=T)
+            return
 
 
 def _run_forward_slit(case, ctx):
@@ -326,6 +370,8 @@ def _run_residual(case, ctx):
     if not _CAPTURE:
         ctx.violation("solver-hook/not-reached", "the analysis returned but the solver hook saw nothing", model=model, geo=geo)
         return
+    if model.startswith("RY") and geo == "slit":
+        _check_ry_slit_potential(ctx, ads, mat, T, r)
     factor = 1.0 if (geo == "slit" or model.startswith("RY")) else 2.0
     if model.startswith("RY") and geo != "slit":
         factor = 2.0
@@ -394,6 +440,9 @@ def finalize(ctx):
         for g in ("slit", "cylinder", "sphere"):
             if res.get("%s/%s" % (m, g), 0) < 4:
                 reasons.append("fewer than 4 residuals judged for %s/%s" % (m, g))
+    ry = ctx.tables.get("ry_slit_potential", {})
+    if ry.get("single-layer", 0) < 10 or ry.get("multi-layer", 0) < 10:
+        reasons.append("Rege-Yang slit potential compared at fewer than 10 widths per regime (%s)" % ry)
     if sum(ctx.tables.get("forward_slit", {}).values()) < 20:
         reasons.append("fewer than 20 forward slit problems")
     for label, (hit, tot) in ctx.reach.items():
